@@ -4,42 +4,119 @@ import PhyVerif.Spec.C19
 namespace PhyVerif.C19.Lemmas
 open PhyVerif PhyVerif.C19
 
+/-! ### the event name of a `connect` -/
+
+theorem takeWhile_all {p : Char → Bool} : ∀ {l : List Char}, l.all p = true → l.takeWhile p = l
+  | [], _ => rfl
+  | c :: cs, h => by
+    simp only [List.all_cons, Bool.and_eq_true] at h
+    simp [List.takeWhile_cons, h.1, takeWhile_all h.2]
+
+theorem dropWhile_all {p : Char → Bool} : ∀ {l : List Char}, l.all p = true → l.dropWhile p = []
+  | [], _ => rfl
+  | c :: cs, h => by
+    simp only [List.all_cons, Bool.and_eq_true] at h
+    simp [List.dropWhile_cons, h.1, dropWhile_all h.2]
+
+/-- a function called `on_<e>` (non-empty `e` without newline) is connected to the event `e` -/
+theorem getOnName_on (e : String) (hne : e ≠ "") (hnl : e.toList.all (· != '\n') = true) :
+    getOnName ("on_" ++ e) = some e := by
+  unfold getOnName
+  have h : ("on_" ++ e).toList = 'o' :: 'n' :: '_' :: e.toList := by
+    rw [String.toList_append]; rfl
+  rw [h]
+  have hx : e.toList ≠ [] := fun h0 => hne (String.toList_eq_nil_iff.mp h0)
+  simp only [takeWhile_all hnl, dropWhile_all hnl]
+  cases he : e.toList with
+  | nil => exact absurd he hx
+  | cons c cs => simp [← he, String.ofList_toList, hne]
+
+/-- every name accepted by `_get_on_name` starts with `on_` followed by the (non-empty) event name -/
+theorem getOnName_some (f e : String) (h : getOnName f = some e) :
+    e ≠ "" ∧ ∃ rest, f.toList = 'o' :: 'n' :: '_' :: (e.toList ++ rest) ∧ (rest = [] ∨ rest = ['\n']) := by
+  unfold getOnName at h
+  split at h
+  · rename_i body hb
+    simp only at h
+    split at h
+    · exact absurd h (by simp)
+    · rename_i hx
+      split at h
+      · rename_i hr
+        have he : e = String.ofList (body.takeWhile (· != '\n')) := (Option.some.inj h).symm
+        subst he
+        refine ⟨?_, body.dropWhile (· != '\n'), ?_, ?_⟩
+        · intro h0
+          have := congrArg String.toList h0
+          simp only [String.toList_ofList] at this
+          rw [this] at hx; exact hx rfl
+        · rw [hb, String.toList_ofList, List.takeWhile_append_dropWhile]
+        · simpa using hr
+      · exact absurd h (by simp)
+  · exact absurd h (by simp)
+
+theorem connectCb_explicit (r : ConnReq) (e : String) (h : r.event = some e) :
+    connectCb r = some ⟨e, r.sender, r.id, r.owner, r.last⟩ := by
+  simp [connectCb, h]
+
+theorem connectCb_byname (r : ConnReq) (e : String) (h : r.event = none) (hf : r.fname = "on_" ++ e)
+    (hne : e ≠ "") (hnl : e.toList.all (· != '\n') = true) :
+    connectCb r = some ⟨e, r.sender, r.id, r.owner, r.last⟩ := by
+  simp [connectCb, h, hf, getOnName_on e hne hnl]
+
+theorem connectCb_raises (r : ConnReq) (h : r.event = none) (hf : getOnName r.fname = none) :
+    connectCb r = none := by
+  simp [connectCb, h, hf]
+
 /-! ### a single emit -/
 
-theorem silenced_emit_none (st : EState) (e s : Nat) (single : Bool) (h : st.silent = true) :
-    emit st e s single = ⟨[], .none⟩ := by
+theorem silenced_emit_none (result : Call → Nat) (st : EState) (e : String) (s : Nat) (a : List Nat)
+    (kw : Kwargs) (h : st.silent = true) :
+    emit result st e s a kw = ⟨[], .none⟩ := by
   simp [emit, h]
 
 /-- the sender/event filter used by both the loop and the specification -/
-def matchesEv (e s : Nat) (c : Cb) : Bool :=
+def matchesEv (e : String) (s : Nat) (c : Cb) : Bool :=
   c.event == e && (match c.sender with | none => true | some x => x == s)
 
-theorem emitLoop_cons (e s : Nat) (single : Bool) (c : Cb) (cs : List Cb) (res : List Nat) :
-    emitLoop e s single (c :: cs) res =
+theorem emitLoop_cons (result : Call → Nat) (e : String) (s : Nat) (a : List Nat) (kw : Kwargs)
+    (single : Bool) (c : Cb) (cs : List Cb) (calls : List Call) (res : List Nat) :
+    emitLoop result e s a kw single (c :: cs) calls res =
       (if matchesEv e s c then
-        (if single then ⟨res ++ [c.id], .one c.id⟩ else emitLoop e s single cs (res ++ [c.id]))
-      else emitLoop e s single cs res) := by
+        (if single then ⟨calls ++ [⟨c.id, s, a, kw⟩], .one (result ⟨c.id, s, a, kw⟩)⟩
+         else emitLoop result e s a kw single cs (calls ++ [⟨c.id, s, a, kw⟩]) (res ++ [result ⟨c.id, s, a, kw⟩]))
+      else emitLoop result e s a kw single cs calls res) := by
   obtain ⟨ev, sd, i, ow, la⟩ := c
   cases sd <;> simp [emitLoop, matchesEv]
 
-theorem emitLoop_eq (e s : Nat) (single : Bool) (l : List Cb) (res : List Nat) :
-    emitLoop e s single l res =
+/-- the invocations of the matching callbacks of `l`, in order -/
+def callsOf (e : String) (s : Nat) (a : List Nat) (kw : Kwargs) (l : List Cb) : List Call :=
+  ((l.filter (matchesEv e s)).map (·.id)).map fun i => (⟨i, s, a, kw⟩ : Call)
+
+theorem callsOf_cons (e : String) (s : Nat) (a : List Nat) (kw : Kwargs) (c : Cb) (l : List Cb) :
+    callsOf e s a kw (c :: l) =
+      if matchesEv e s c then ⟨c.id, s, a, kw⟩ :: callsOf e s a kw l else callsOf e s a kw l := by
+  unfold callsOf
+  by_cases h : matchesEv e s c = true <;> simp [List.filter_cons, h]
+
+theorem emitLoop_eq (result : Call → Nat) (e : String) (s : Nat) (a : List Nat) (kw : Kwargs)
+    (single : Bool) (l : List Cb) (calls : List Call) (res : List Nat) :
+    emitLoop result e s a kw single l calls res =
       (if single then
-        match (l.filter (matchesEv e s)).map (·.id) with
-        | [] => ⟨res, .list res⟩
-        | i :: _ => ⟨res ++ [i], .one i⟩
-      else ⟨res ++ (l.filter (matchesEv e s)).map (·.id), .list (res ++ (l.filter (matchesEv e s)).map (·.id))⟩) := by
-  induction l generalizing res with
-  | nil => cases single <;> simp [emitLoop]
+        match callsOf e s a kw l with
+        | [] => ⟨calls, .list res⟩
+        | c :: _ => ⟨calls ++ [c], .one (result c)⟩
+      else ⟨calls ++ callsOf e s a kw l, .list (res ++ (callsOf e s a kw l).map result)⟩) := by
+  induction l generalizing calls res with
+  | nil => cases single <;> simp [emitLoop, callsOf]
   | cons c cs ih =>
-    rw [emitLoop_cons]
+    rw [emitLoop_cons, callsOf_cons]
     by_cases hm : matchesEv e s c = true
-    · rw [if_pos hm]
+    · rw [if_pos hm, if_pos hm]
       cases single
-      · simp [ih, hm]
-      · simp [hm]
-    · rw [if_neg hm, ih]
-      simp [hm]
+      · simp [ih]
+      · simp
+    · rw [if_neg hm, if_neg hm, ih]
 
 theorem filter_reorder (p : Cb → Bool) (l : List Cb) :
     (l.filter (fun c => !c.last) ++ l.filter (fun c => c.last)).filter p =
@@ -49,27 +126,78 @@ theorem filter_reorder (p : Cb → Bool) (l : List Cb) :
   · apply List.filter_congr; intro x _; exact Bool.and_comm _ _
   · apply List.filter_congr; intro x _; exact Bool.and_comm _ _
 
-theorem emit_eq_spec (st : EState) (e s : Nat) (single : Bool) (h : st.silent = false) :
-    emit st e s single = emitSpec st.cbs e s single := by
-  have hs : shouldCall st.cbs e s =
-      ((st.cbs.filter (fun c => !c.last) ++ st.cbs.filter (fun c => c.last)).filter
-        (matchesEv e s)).map (·.id) := by
+theorem emit_eq_spec (result : Call → Nat) (st : EState) (e : String) (s : Nat) (a : List Nat)
+    (kw : Kwargs) (h : st.silent = false) :
+    emit result st e s a kw = emitSpec result st.cbs e s a kw := by
+  have hs : (shouldCall st.cbs e s).map (fun i => (⟨i, s, a, forwarded kw⟩ : Call)) =
+      callsOf e s a (forwarded kw)
+        (st.cbs.filter (fun c => !c.last) ++ st.cbs.filter (fun c => c.last)) := by
+    unfold callsOf
     rw [filter_reorder]; rfl
   unfold emit emitSpec
   simp only [h, Bool.false_eq_true, if_false]
   rw [emitLoop_eq, hs]
-  generalize List.map (·.id) (List.filter (matchesEv e s)
-    (List.filter (fun c => !c.last) st.cbs ++ List.filter (fun c => c.last) st.cbs)) = ids
-  cases single
+  have h1 : (popSingle kw).1 = wantsSingle kw := rfl
+  have h2 : (popSingle kw).2 = forwarded kw := rfl
+  rw [h1, h2]
+  generalize callsOf e s a (forwarded kw)
+    (List.filter (fun c => !c.last) st.cbs ++ List.filter (fun c => c.last) st.cbs) = cl
+  cases wantsSingle kw
   · simp
-  · cases ids <;> simp
+  · cases cl <;> simp
+
+/-- "passes the sender and arguments through unchanged": whatever the state, every invocation made by
+an emit carries the emit's sender, its positional arguments and its keyword arguments minus `single` -/
+theorem emit_args_through (result : Call → Nat) (st : EState) (e : String) (s : Nat) (a : List Nat)
+    (kw : Kwargs) :
+    ∀ c ∈ (emit result st e s a kw).calls, c.sender = s ∧ c.args = a ∧ c.kwargs = forwarded kw := by
+  by_cases hs : st.silent = true
+  · rw [silenced_emit_none _ _ _ _ _ _ hs]; intro c hc; simp at hc
+  · have hs' : st.silent = false := by simpa using hs
+    rw [emit_eq_spec _ _ _ _ _ _ hs']
+    unfold emitSpec
+    intro c hc
+    have key : ∀ c ∈ (shouldCall st.cbs e s).map (fun i => (⟨i, s, a, forwarded kw⟩ : Call)),
+        c.sender = s ∧ c.args = a ∧ c.kwargs = forwarded kw := by
+      intro c hc
+      obtain ⟨i, _, rfl⟩ := List.mem_map.mp hc
+      exact ⟨rfl, rfl, rfl⟩
+    generalize (shouldCall st.cbs e s).map (fun i => (⟨i, s, a, forwarded kw⟩ : Call)) = cl at hc key
+    cases hw : wantsSingle kw <;> rw [hw] at hc
+    · exact key c (by simpa using hc)
+    · cases cl with
+      | nil => simp at hc
+      | cons c0 _ =>
+        have hc' : c = c0 := by simpa using hc
+        subst hc'
+        exact key _ List.mem_cons_self
+
+/-- "returns the callbacks' results in call order (only the first result, after a single call, when a
+single result is requested)": the returned value is computed from the result list the loop appends to,
+the call log from what the callbacks received; they agree position by position -/
+theorem emit_results_in_call_order (result : Call → Nat) (st : EState) (e : String) (s : Nat)
+    (a : List Nat) (kw : Kwargs) (h : st.silent = false) :
+    (wantsSingle kw = false → (emit result st e s a kw).ret = .list ((emit result st e s a kw).calls.map result)) ∧
+    (wantsSingle kw = true →
+      ((emit result st e s a kw).calls = [] ∧ (emit result st e s a kw).ret = .list []) ∨
+      (∃ c, (emit result st e s a kw).calls = [c] ∧ (emit result st e s a kw).ret = .one (result c))) := by
+  rw [emit_eq_spec _ _ _ _ _ _ h]
+  unfold emitSpec
+  generalize (shouldCall st.cbs e s).map (fun i => (⟨i, s, a, forwarded kw⟩ : Call)) = cl
+  constructor
+  · intro hw; simp [hw]
+  · intro hw
+    simp only [hw, if_true]
+    cases cl with
+    | nil => exact Or.inl ⟨rfl, rfl⟩
+    | cons c _ => exact Or.inr ⟨c, rfl, rfl⟩
 
 /-! ### histories -/
 
 theorem registered_eq (ops : List EOp) :
     registered ops = ops.foldl (fun acc op =>
       match op with
-      | .connect c => acc ++ [c]
+      | .connect r => (match connectCb r with | some c => acc ++ [c] | none => acc)
       | .unconnect items => acc.filter (keeps items)
       | .reset => []
       | _ => acc) [] := by
@@ -78,7 +206,7 @@ theorem registered_eq (ops : List EOp) :
 theorem registered_snoc (pre : List EOp) (op : EOp) :
     registered (pre ++ [op]) =
       (match op with
-      | .connect c => registered pre ++ [c]
+      | .connect r => (match connectCb r with | some c => registered pre ++ [c] | none => registered pre)
       | .unconnect items => (registered pre).filter (keeps items)
       | .reset => []
       | _ => registered pre) := by
@@ -108,21 +236,33 @@ structure Inv (pre : List EOp) (st : EState) : Prop where
 
 theorem inv_init : Inv [] EState.init := ⟨rfl, rfl, rfl⟩
 
-theorem inv_step (pre : List EOp) (st : EState) (op : EOp) (ops : List EOp)
+theorem estep_connect_cbs (result : Call → Nat) (st : EState) (r : ConnReq) :
+    (estep result st (.connect r)).1 =
+      { st with cbs := (match connectCb r with | some c => st.cbs ++ [c] | none => st.cbs) } ∧
+    (estep result st (.connect r)).2 = none := by
+  unfold estep
+  cases st
+  cases h : connectCb r <;> simp [h]
+
+theorem inv_step (result : Call → Nat) (pre : List EOp) (st : EState) (op : EOp) (ops : List EOp)
     (hi : Inv pre st) (hw : WellNested (op :: ops) (depthFlag pre).1) :
-    Inv (pre ++ [op]) (estep st op).1 ∧ WellNested ops (depthFlag (pre ++ [op])).1 := by
+    Inv (pre ++ [op]) (estep result st op).1 ∧ WellNested ops (depthFlag (pre ++ [op])).1 := by
   obtain ⟨hc, hsv, hsl⟩ := hi
   cases op with
-  | connect c =>
-    refine ⟨⟨?_, ?_, ?_⟩, ?_⟩ <;>
-      simp_all [estep, registered_snoc, depthFlag_snoc, WellNested]
+  | connect r =>
+    rw [(estep_connect_cbs result st r).1]
+    refine ⟨⟨?_, ?_, ?_⟩, ?_⟩
+    · simp only [registered_snoc, hc]
+    · simpa [depthFlag_snoc] using hsv
+    · simpa [depthFlag_snoc] using hsl
+    · simpa [depthFlag_snoc, WellNested] using hw
   | unconnect items =>
     refine ⟨⟨?_, ?_, ?_⟩, ?_⟩ <;>
       simp_all [estep, registered_snoc, depthFlag_snoc, WellNested]
   | reset =>
     refine ⟨⟨?_, ?_, ?_⟩, ?_⟩ <;>
       simp_all [estep, registered_snoc, depthFlag_snoc, WellNested]
-  | emit e s single =>
+  | emit e s a kw =>
     refine ⟨⟨?_, ?_, ?_⟩, ?_⟩ <;>
       simp_all [estep, registered_snoc, depthFlag_snoc, WellNested]
   | setSilent b =>
@@ -152,51 +292,250 @@ theorem inv_step (pre : List EOp) (st : EState) (op : EOp) (ops : List EOp)
     · simp only [estep, hsv', depthFlag_snoc, hn, Nat.add_sub_cancel]
     · simpa [depthFlag_snoc] using hw
 
-theorem erun_eq (ops : List EOp) : ∀ (pre : List EOp) (st : EState),
-    Inv pre st → WellNested ops (depthFlag pre).1 → erun st ops = emitsSpec pre ops := by
+theorem estep_out_none (result : Call → Nat) (st : EState) (op : EOp)
+    (h : ∀ e s a kw, op ≠ .emit e s a kw) : (estep result st op).2 = none := by
+  cases op with
+  | connect r => exact (estep_connect_cbs result st r).2
+  | exitSilent => cases hsv : st.saved <;> simp [estep, hsv]
+  | emit e s a kw => exact absurd rfl (h e s a kw)
+  | _ => rfl
+
+theorem erun_cons_emit (result : Call → Nat) (st : EState) (e : String) (s : Nat) (a : List Nat)
+    (kw : Kwargs) (ops : List EOp) :
+    erun result st (.emit e s a kw :: ops) = emit result st e s a kw :: erun result st ops := by
+  simp [erun, estep]
+
+theorem erun_cons_other (result : Call → Nat) (st : EState) (op : EOp) (ops : List EOp)
+    (h : ∀ e s a kw, op ≠ .emit e s a kw) :
+    erun result st (op :: ops) = erun result (estep result st op).1 ops := by
+  have hn := estep_out_none result st op h
+  rw [erun]
+  generalize estep result st op = p at hn
+  obtain ⟨st', o⟩ := p
+  simp only at hn
+  subst hn
+  rfl
+
+theorem erun_eq (result : Call → Nat) (ops : List EOp) : ∀ (pre : List EOp) (st : EState),
+    Inv pre st → WellNested ops (depthFlag pre).1 → erun result st ops = emitsSpec result pre ops := by
   induction ops with
   | nil => intros; rfl
   | cons op ops ih =>
     intro pre st hi hw
-    obtain ⟨hi', hw'⟩ := inv_step pre st op ops hi hw
+    obtain ⟨hi', hw'⟩ := inv_step result pre st op ops hi hw
     have := ih _ _ hi' hw'
-    cases op with
-    | emit e s single =>
-      simp only [erun, estep, emitsSpec]
+    by_cases hop : ∃ e s a kw, op = .emit e s a kw
+    · obtain ⟨e, s, a, kw, rfl⟩ := hop
+      rw [erun_cons_emit]
+      simp only [emitsSpec]
       simp only [estep] at this
       rw [this]
       congr 1
       by_cases hs : st.silent = true
-      · rw [silenced_emit_none _ _ _ _ hs, if_pos]
+      · rw [silenced_emit_none _ _ _ _ _ _ hs, if_pos]
         rw [← hi.silent]; exact hs
       · have hs' : st.silent = false := by simpa using hs
-        rw [emit_eq_spec _ _ _ _ hs', if_neg, hi.cbs]
+        rw [emit_eq_spec _ _ _ _ _ _ hs', if_neg, hi.cbs]
         rw [← hi.silent]; exact hs
-    | exitSilent =>
-      have hn : (estep st EOp.exitSilent).2 = none := by
-        cases hsv : st.saved <;> simp [estep, hsv]
-      simp only [erun, emitsSpec, hn]
-      exact this
-    | _ => simpa [erun, emitsSpec, estep] using this
+    · have hne : ∀ e s a kw, op ≠ .emit e s a kw := fun e s a kw h => hop ⟨e, s, a, kw, h⟩
+      rw [erun_cons_other _ _ _ _ hne, this]
+      cases op with
+      | emit e s a kw => exact absurd rfl (hne e s a kw)
+      | _ => rfl
 
-theorem erunState_inv (ops : List EOp) : ∀ (pre : List EOp) (st : EState),
-    Inv pre st → WellNested ops (depthFlag pre).1 → Inv (pre ++ ops) (erunState st ops) := by
+theorem erunState_inv (result : Call → Nat) (ops : List EOp) : ∀ (pre : List EOp) (st : EState),
+    Inv pre st → WellNested ops (depthFlag pre).1 → Inv (pre ++ ops) (erunState result st ops) := by
   induction ops with
   | nil => intro pre st hi _; simpa [erunState] using hi
   | cons op ops ih =>
     intro pre st hi hw
-    obtain ⟨hi', hw'⟩ := inv_step pre st op ops hi hw
+    obtain ⟨hi', hw'⟩ := inv_step result pre st op ops hi hw
     have := ih _ _ hi' hw'
     simpa [erunState] using this
 
-theorem emit_outcomes (ops : List EOp) (h : WellNested ops 0) :
-    erun EState.init ops = emitsSpec [] ops :=
-  erun_eq ops [] EState.init inv_init h
+theorem emit_outcomes (result : Call → Nat) (ops : List EOp) (h : WellNested ops 0) :
+    erun result EState.init ops = emitsSpec result [] ops :=
+  erun_eq result ops [] EState.init inv_init h
 
-theorem silent_restores (ops : List EOp) (h : WellNested ops 0) :
-    (erunState EState.init ops).silent = (decide ((depthFlag ops).1 > 0) || (depthFlag ops).2) := by
-  have := (erunState_inv ops [] EState.init inv_init h).silent
+theorem silent_restores (result : Call → Nat) (ops : List EOp) (h : WellNested ops 0) :
+    (erunState result EState.init ops).silent = (decide ((depthFlag ops).1 > 0) || (depthFlag ops).2) := by
+  have := (erunState_inv result ops [] EState.init inv_init h).silent
   simpa using this
+
+/-! ### histories with `set_silent` anywhere -/
+
+/-- the values held by the open `silent()` frames (innermost first), read off the history backwards
+in the same way as `silentBack` -/
+def savedBack : List EOp → Nat → List Bool
+  | [], _ => []
+  | op :: r, 0 =>
+    match op with
+    | .enterSilent => silentBack r 0 :: savedBack r 0
+    | .exitSilent => savedBack r 1
+    | _ => savedBack r 0
+  | op :: r, k + 1 =>
+    match op with
+    | .enterSilent => savedBack r k
+    | .exitSilent => savedBack r (k + 2)
+    | _ => savedBack r (k + 1)
+
+/-- leaving the innermost open context: the flag becomes the value that frame saved -/
+theorem savedBack_pop : ∀ (r : List EOp) (k : Nat) (b : Bool) (rest : List Bool),
+    savedBack r k = b :: rest → silentBack r (k + 1) = b ∧ savedBack r (k + 1) = rest := by
+  intro r
+  induction r with
+  | nil => intro k b rest h; cases k <;> simp [savedBack] at h
+  | cons op r ih =>
+    intro k b rest h
+    cases k with
+    | zero =>
+      cases op with
+      | enterSilent =>
+        simp only [savedBack, List.cons.injEq] at h
+        simp only [silentBack, savedBack]
+        exact ⟨h.1, h.2⟩
+      | exitSilent =>
+        simp only [savedBack] at h
+        simp only [silentBack, savedBack]
+        exact ih 1 b rest h
+      | connect _ => simp only [savedBack] at h; simp only [silentBack, savedBack]; exact ih 0 b rest h
+      | unconnect _ => simp only [savedBack] at h; simp only [silentBack, savedBack]; exact ih 0 b rest h
+      | reset => simp only [savedBack] at h; simp only [silentBack, savedBack]; exact ih 0 b rest h
+      | setSilent _ => simp only [savedBack] at h; simp only [silentBack, savedBack]; exact ih 0 b rest h
+      | emit _ _ _ _ => simp only [savedBack] at h; simp only [silentBack, savedBack]; exact ih 0 b rest h
+    | succ k =>
+      cases op with
+      | enterSilent =>
+        simp only [savedBack] at h
+        simp only [silentBack, savedBack]
+        exact ih k b rest h
+      | exitSilent =>
+        simp only [savedBack] at h
+        simp only [silentBack, savedBack]
+        exact ih (k + 2) b rest h
+      | connect _ => simp only [savedBack] at h; simp only [silentBack, savedBack]; exact ih (k + 1) b rest h
+      | unconnect _ => simp only [savedBack] at h; simp only [silentBack, savedBack]; exact ih (k + 1) b rest h
+      | reset => simp only [savedBack] at h; simp only [silentBack, savedBack]; exact ih (k + 1) b rest h
+      | setSilent _ => simp only [savedBack] at h; simp only [silentBack, savedBack]; exact ih (k + 1) b rest h
+      | emit _ _ _ _ => simp only [savedBack] at h; simp only [silentBack, savedBack]; exact ih (k + 1) b rest h
+
+structure InvG (pre : List EOp) (st : EState) : Prop where
+  cbs : st.cbs = registered pre
+  silent : st.silent = silentBack pre.reverse 0
+  saved : st.saved = savedBack pre.reverse 0
+  len : st.saved.length = (depthFlag pre).1
+
+theorem invG_init : InvG [] EState.init := ⟨rfl, rfl, rfl, rfl⟩
+
+theorem invG_step (result : Call → Nat) (pre : List EOp) (st : EState) (op : EOp) (ops : List EOp)
+    (hi : InvG pre st) (hw : ExitsMatched (op :: ops) (depthFlag pre).1) :
+    InvG (pre ++ [op]) (estep result st op).1 ∧ ExitsMatched ops (depthFlag (pre ++ [op])).1 := by
+  obtain ⟨hc, hsl, hsv, hlen⟩ := hi
+  have hrev : (pre ++ [op]).reverse = op :: pre.reverse := by simp
+  cases op with
+  | connect r =>
+    rw [(estep_connect_cbs result st r).1]
+    refine ⟨⟨?_, ?_, ?_, ?_⟩, ?_⟩
+    · simp only [registered_snoc, hc]
+    · rw [hrev]; simpa [silentBack] using hsl
+    · rw [hrev]; simpa [savedBack] using hsv
+    · simpa [depthFlag_snoc] using hlen
+    · simpa [depthFlag_snoc, ExitsMatched] using hw
+  | unconnect items =>
+    refine ⟨⟨?_, ?_, ?_, ?_⟩, ?_⟩
+    · simp [estep, registered_snoc, hc]
+    · rw [hrev]; simpa [estep, silentBack] using hsl
+    · rw [hrev]; simpa [estep, savedBack] using hsv
+    · simpa [estep, depthFlag_snoc] using hlen
+    · simpa [depthFlag_snoc, ExitsMatched] using hw
+  | reset =>
+    refine ⟨⟨?_, ?_, ?_, ?_⟩, ?_⟩
+    · simp [estep, registered_snoc]
+    · rw [hrev]; simpa [estep, silentBack] using hsl
+    · rw [hrev]; simpa [estep, savedBack] using hsv
+    · simpa [estep, depthFlag_snoc] using hlen
+    · simpa [depthFlag_snoc, ExitsMatched] using hw
+  | emit e s a kw =>
+    refine ⟨⟨?_, ?_, ?_, ?_⟩, ?_⟩
+    · simp [estep, registered_snoc, hc]
+    · rw [hrev]; simpa [estep, silentBack] using hsl
+    · rw [hrev]; simpa [estep, savedBack] using hsv
+    · simpa [estep, depthFlag_snoc] using hlen
+    · simpa [depthFlag_snoc, ExitsMatched] using hw
+  | setSilent b =>
+    refine ⟨⟨?_, ?_, ?_, ?_⟩, ?_⟩
+    · simp [estep, registered_snoc, hc]
+    · rw [hrev]; simp [estep, silentBack]
+    · rw [hrev]; simpa [estep, savedBack] using hsv
+    · simpa [estep, depthFlag_snoc] using hlen
+    · simpa [depthFlag_snoc, ExitsMatched] using hw
+  | enterSilent =>
+    refine ⟨⟨?_, ?_, ?_, ?_⟩, ?_⟩
+    · simp [estep, registered_snoc, hc]
+    · rw [hrev]; simp [estep, silentBack]
+    · rw [hrev]; simp [estep, savedBack, hsl, hsv]
+    · simp [estep, depthFlag_snoc, hlen]
+    · simpa [depthFlag_snoc, ExitsMatched] using hw
+  | exitSilent =>
+    simp only [ExitsMatched] at hw
+    obtain ⟨hpos, hw⟩ := hw
+    cases hs : st.saved with
+    | nil => rw [hs] at hlen; simp at hlen; omega
+    | cons b rest =>
+      obtain ⟨h1, h2⟩ := savedBack_pop pre.reverse 0 b rest (by rw [← hsv, hs])
+      refine ⟨⟨?_, ?_, ?_, ?_⟩, ?_⟩
+      · simp [estep, hs, registered_snoc, hc]
+      · rw [hrev]; simp [estep, hs, silentBack, h1]
+      · rw [hrev]; simp [estep, hs, savedBack, h2]
+      · rw [hs] at hlen; simp at hlen; simp [estep, hs, depthFlag_snoc]; omega
+      · simpa [depthFlag_snoc] using hw
+
+theorem erunG_eq (result : Call → Nat) (ops : List EOp) : ∀ (pre : List EOp) (st : EState),
+    InvG pre st → ExitsMatched ops (depthFlag pre).1 → erun result st ops = emitsSpecG result pre ops := by
+  induction ops with
+  | nil => intros; rfl
+  | cons op ops ih =>
+    intro pre st hi hw
+    obtain ⟨hi', hw'⟩ := invG_step result pre st op ops hi hw
+    have := ih _ _ hi' hw'
+    by_cases hop : ∃ e s a kw, op = .emit e s a kw
+    · obtain ⟨e, s, a, kw, rfl⟩ := hop
+      rw [erun_cons_emit]
+      simp only [emitsSpecG]
+      simp only [estep] at this
+      rw [this]
+      congr 1
+      have hsa : silencedAfter pre = st.silent := hi.silent.symm
+      by_cases hs : st.silent = true
+      · rw [silenced_emit_none _ _ _ _ _ _ hs, if_pos]
+        rw [hsa]; exact hs
+      · have hs' : st.silent = false := by simpa using hs
+        rw [emit_eq_spec _ _ _ _ _ _ hs', if_neg, hi.cbs]
+        rw [hsa]; exact hs
+    · have hne : ∀ e s a kw, op ≠ .emit e s a kw := fun e s a kw h => hop ⟨e, s, a, kw, h⟩
+      rw [erun_cons_other _ _ _ _ hne, this]
+      cases op with
+      | emit e s a kw => exact absurd rfl (hne e s a kw)
+      | _ => rfl
+
+theorem erunStateG_inv (result : Call → Nat) (ops : List EOp) : ∀ (pre : List EOp) (st : EState),
+    InvG pre st → ExitsMatched ops (depthFlag pre).1 → InvG (pre ++ ops) (erunState result st ops) := by
+  induction ops with
+  | nil => intro pre st hi _; simpa [erunState] using hi
+  | cons op ops ih =>
+    intro pre st hi hw
+    obtain ⟨hi', hw'⟩ := invG_step result pre st op ops hi hw
+    have := ih _ _ hi' hw'
+    simpa [erunState] using this
+
+theorem emit_outcomes_any_nesting (result : Call → Nat) (ops : List EOp) (h : ExitsMatched ops 0) :
+    erun result EState.init ops = emitsSpecG result [] ops :=
+  erunG_eq result ops [] EState.init invG_init h
+
+theorem silent_flag_any_nesting (result : Call → Nat) (ops : List EOp) (h : ExitsMatched ops 0) :
+    (erunState result EState.init ops).silent = silencedAfter ops := by
+  have := (erunStateG_inv result ops [] EState.init invG_init h).silent
+  simpa [silencedAfter] using this
 
 /-! ### reporter -/
 
